@@ -22,6 +22,12 @@ type RTCase struct {
 	Build   string   `json:"build"`    // parse | insert: how the TraceState is obtained
 	Carrier string   `json:"carrier"`  // map | header
 	Prior   bool     `json:"prior"`    // the context handed to Extract already carries another span
+	// PriorSame != 0: the context handed to Extract already carries a span
+	// context with the SAME trace and span id as the carrier (the hop reuses
+	// the context it injected from): 1 the very injected span context,
+	// 2 a local one with the sampled bit flipped and another tracestate,
+	// 3 a remote one with the sampled bit flipped and no tracestate.
+	PriorSame int `json:"prior_same,omitempty"`
 }
 
 func genNonZeroID(n int) *rapid.Generator[string] {
@@ -62,6 +68,7 @@ func genRT(t *rapid.T) RTCase {
 	c.Build = rapid.SampledFrom([]string{"parse", "insert"}).Draw(t, "build")
 	c.Carrier = rapid.SampledFrom([]string{"map", "map", "header"}).Draw(t, "carrier")
 	c.Prior = rapid.Bool().Draw(t, "prior")
+	c.PriorSame = rapid.SampledFrom([]int{0, 0, 0, 1, 2, 3}).Draw(t, "prior_same")
 	return c
 }
 
@@ -179,13 +186,23 @@ func runRT(c RTCase) ([]vk.Violation, vk.Info) {
 	}
 
 	base := baseContext(c.Prior)
+	switch c.PriorSame {
+	case 1:
+		base = trace.ContextWithSpanContext(base, sc)
+	case 2:
+		other, _ := trace.ParseTraceState("prior=same")
+		base = trace.ContextWithSpanContext(base, sc.WithRemote(false).WithTraceFlags(sc.TraceFlags()^trace.FlagsSampled).WithTraceState(other))
+	case 3:
+		base = trace.ContextWithSpanContext(base, sc.WithRemote(true).WithTraceFlags(sc.TraceFlags()^trace.FlagsSampled).WithTraceState(trace.TraceState{}))
+	}
+	info.ClassIf(c.PriorSame != 0, "extract_into_context_that_already_holds_the_same_ids")
 	out := prop.Extract(base, carrier)
 	got := trace.SpanContextFromContext(out)
 	if v, _ := out.Value(ctxKey{}).(string); v != "marker" {
 		bad("context_value_lost", "the context returned by Extract lost an unrelated value")
 	}
 	switch {
-	case got.Equal(trace.SpanContextFromContext(base)):
+	case c.PriorSame == 0 && got.Equal(trace.SpanContextFromContext(base)):
 		bad("roundtrip_not_extracted", "Extract left the context untouched for traceparent %q tracestate %q", gotTP, gotTSH)
 		return vs, info
 	}
